@@ -30,6 +30,8 @@ type ReplayCase struct {
 	Outcome  string // PANIC / OK / HANG / ERROR
 	Detail   string
 	Confirms bool
+	Lifted   string // entry point the helper's counterexample was lifted to ("" when the obligation is the root's own)
+	Reset    bool // C05 stale-state comparison (decode into a poisoned and a fresh object)
 }
 
 const replayByteLimit = 320
@@ -194,6 +196,52 @@ func (e *Engine) buildReplay(res *FnResult, o *Obl, model map[string]string) (*R
 		}
 		recvName = "recv"
 	}
+	if o.Class == "reset" && isDecodeFromBytes(f) {
+		// C05: decode the model input into an object whose fields hold stale values and into a fresh object;
+		// the field named by the obligation must come out the same.
+		p0 := params[0]
+		n, _ := strconv.Atoi(model[p0.Name()+".len"])
+		if n > replayByteLimit {
+			return nil, false
+		}
+		pt, ok := f.Params[0].Type().Underlying().(*types.Pointer)
+		if !ok {
+			return nil, false
+		}
+		field := strings.TrimPrefix(o.Name[strings.Index(o.Name, "#reset:")+len("#reset:"):], "")
+		if i := strings.LastIndex(field, "/"); i >= 0 {
+			field = field[:i]
+		}
+		rc.Imports["reflect"] = true
+		rc.Imports["unsafe"] = true
+		fb := "gopacket.NilDecodeFeedback"
+		if pname == "gopacket" {
+			fb = "NilDecodeFeedback"
+		} else {
+			rc.Imports["github.com/gopacket/gopacket"] = true
+		}
+		setup.Reset()
+		wm := e.witnessModel(res, o)
+		if wm == nil {
+			return nil, false // no input assigns the field at all: no earlier packet can leave a stale value
+		}
+		wn, _ := strconv.Atoi(wm[p0.Name()+".len"])
+		if wn > replayByteLimit {
+			return nil, false
+		}
+		fmt.Fprintf(&setup, "earlier := %s\n", goByteLit(wm, p0.Name(), wn))
+		fmt.Fprintf(&setup, "data := %s\n", goByteLit(model, p0.Name(), n))
+		fmt.Fprintf(&setup, "stale, fresh := new(%s), new(%s)\n", qual(pt.Elem()), qual(pt.Elem()))
+		fmt.Fprintf(&setup, "_ = stale.DecodeFromBytes(earlier, %s)\n", fb)
+		rc.Inputs["earlier packet"] = hexOf(wm, p0.Name(), wn)
+		fmt.Fprintf(&setup, "e1 := stale.DecodeFromBytes(data, %s)\n", fb)
+		fmt.Fprintf(&setup, "e2 := fresh.DecodeFromBytes(append([]byte(nil), data...), %s)\n", fb)
+		rc.Inputs[p0.Name()] = hexOf(model, p0.Name(), n)
+		rc.Setup = setup.String()
+		rc.Call = fmt.Sprintf("verifCompareField(e1, e2, reflect.ValueOf(stale).Elem(), reflect.ValueOf(fresh).Elem(), %q)", field)
+		rc.Reset = true
+		return rc, true
+	}
 	if isDecodeFuncSig(f) && sig.Recv() == nil {
 		// decode function: run it through a real packet builder with recovery off
 		p0 := params[0]
@@ -341,7 +389,7 @@ func (e *Engine) runReplayPkg(dir string, cs []*ReplayCase) {
 			if r := recover(); r != nil {
 				st := string(debug.Stack())
 				hit := "other"
-				if strings.Contains(st, want) {
+				if strings.Contains(st, want+" ") || strings.Contains(st, want+"\n") || !strings.Contains(want, ".go:") && strings.Contains(st, want) {
 					hit = "target"
 				}
 				done <- fmt.Sprintf("PANIC %s %v", hit, r)
@@ -361,6 +409,9 @@ func (e *Engine) runReplayPkg(dir string, cs []*ReplayCase) {
 }
 
 `)
+	if imports["reflect"] {
+		src.WriteString(verifResetHelpers)
+	}
 	for i, c := range cs {
 		want := c.Res.Fn.Name()
 		if r := c.Res.Fn.Signature.Recv(); r != nil {
@@ -373,6 +424,10 @@ func (e *Engine) runReplayPkg(dir string, cs []*ReplayCase) {
 			}
 		} else {
 			want = "." + want + "("
+		}
+		if c.Obl != nil && c.Obl.Pos.Line > 0 && c.Obl.Class != "dec" && !c.Reset {
+			// the panic must come from the source line of the refuted obligation (a frame at file:line on the stack)
+			want = fmt.Sprintf("%s:%d", shortFile(c.Obl.Pos.Filename), c.Obl.Pos.Line)
 		}
 		fmt.Fprintf(&src, "func TestVerifReplay%d(t *testing.T) {\n\tverifReplayRun(%d, %q, func() {\n", i, i, want)
 		for _, l := range strings.Split(strings.TrimSpace(c.Setup), "\n") {
@@ -432,8 +487,10 @@ func (e *Engine) runReplayPkg(dir string, cs []*ReplayCase) {
 				c.Outcome = "HANG"
 				c.Detail = "resource exhaustion / timeout: " + firstLines(string(out), 2)
 			}
-			switch c.Obl.Class {
-			case "dec":
+			switch {
+			case c.Reset:
+				c.Confirms = c.Outcome == "PANIC" && strings.Contains(c.Detail, "VERIF-STALE")
+			case c.Obl.Class == "dec":
 				c.Confirms = c.Outcome == "HANG"
 			default:
 				c.Confirms = c.Outcome == "PANIC" && strings.HasPrefix(c.Detail, "PANIC target")
@@ -449,4 +506,174 @@ func firstLines(s string, n int) string {
 		ls = ls[:n]
 	}
 	return strings.Join(ls, " | ")
+}
+
+const verifResetHelpers = `
+func verifSettable(v reflect.Value) reflect.Value {
+	if v.CanSet() {
+		return v
+	}
+	if v.CanAddr() {
+		return reflect.NewAt(v.Type(), unsafe.Pointer(v.UnsafeAddr())).Elem()
+	}
+	return v
+}
+
+// (verifPoison is kept for experiments; the registered replay derives stale state from a real earlier decode)
+// verifPoison fills a value with the kind of state a previously decoded packet can leave behind.
+func verifPoison(v reflect.Value, depth int) {
+	v = verifSettable(v)
+	if !v.CanSet() || depth > 5 {
+		return
+	}
+	switch v.Kind() {
+	case reflect.Bool:
+		v.SetBool(true)
+	case reflect.Int, reflect.Int8, reflect.Int16, reflect.Int32, reflect.Int64:
+		v.SetInt(0x55)
+	case reflect.Uint, reflect.Uint8, reflect.Uint16, reflect.Uint32, reflect.Uint64:
+		v.SetUint(0x55)
+	case reflect.String:
+		v.SetString("stale")
+	case reflect.Slice:
+		s := reflect.MakeSlice(v.Type(), 3, 3)
+		for i := 0; i < 3; i++ {
+			verifPoison(s.Index(i), depth+1)
+		}
+		v.Set(s)
+	case reflect.Array:
+		for i := 0; i < v.Len(); i++ {
+			verifPoison(v.Index(i), depth+1)
+		}
+	case reflect.Struct:
+		for i := 0; i < v.NumField(); i++ {
+			verifPoison(v.Field(i), depth+1)
+		}
+	}
+}
+
+func verifField(v reflect.Value, path string) reflect.Value {
+	for _, name := range strings.Split(path, ".") {
+		for v.Kind() == reflect.Ptr {
+			if v.IsNil() {
+				return reflect.Value{}
+			}
+			v = v.Elem()
+		}
+		if v.Kind() != reflect.Struct {
+			return reflect.Value{}
+		}
+		v = v.FieldByName(name)
+		if !v.IsValid() {
+			return v
+		}
+	}
+	return verifSettable(v)
+}
+
+func verifEq(a, b reflect.Value) bool {
+	if a.Kind() != b.Kind() {
+		return false
+	}
+	switch a.Kind() {
+	case reflect.Slice:
+		if a.Len() != b.Len() {
+			return false
+		}
+		for i := 0; i < a.Len(); i++ {
+			if !verifEq(a.Index(i), b.Index(i)) {
+				return false
+			}
+		}
+		return true
+	case reflect.Struct:
+		for i := 0; i < a.NumField(); i++ {
+			if !verifEq(verifSettable(a.Field(i)), verifSettable(b.Field(i))) {
+				return false
+			}
+		}
+		return true
+	case reflect.Array:
+		for i := 0; i < a.Len(); i++ {
+			if !verifEq(a.Index(i), b.Index(i)) {
+				return false
+			}
+		}
+		return true
+	}
+	if a.CanInterface() && b.CanInterface() {
+		return reflect.DeepEqual(a.Interface(), b.Interface())
+	}
+	return true
+}
+
+func verifCompareField(e1, e2 error, stale, fresh reflect.Value, path string) {
+	if e1 != nil || e2 != nil {
+		if (e1 == nil) != (e2 == nil) {
+			panic(fmt.Sprintf("VERIF-STALE decode result differs: stale-object err=%v fresh-object err=%v", e1, e2))
+		}
+		return
+	}
+	a, b := verifField(stale, path), verifField(fresh, path)
+	if !a.IsValid() || !b.IsValid() || !a.CanInterface() || !b.CanInterface() {
+		return
+	}
+	if !verifEq(a, b) {
+		panic(fmt.Sprintf("VERIF-STALE field %s: reused object has %v, fresh object has %v", path, a.Interface(), b.Interface()))
+	}
+}
+`
+
+// witnessModel finds an input after which the field of a reset obligation holds an assigned value.
+func (e *Engine) witnessModel(res *FnResult, o *Obl) map[string]string {
+	if o.Witness == "" {
+		return nil
+	}
+	f := res.Fn
+	var terms []modelVar
+	var extra []string
+	for i, p := range f.Params {
+		if i >= len(res.ParamVals) {
+			break
+		}
+		v := res.ParamVals[i]
+		if v.K == KSlice && isByteSlice(p.Type()) {
+			terms = append(terms, modelVar{p.Name() + ".len", v.T[2]})
+			extra = append(extra, fmt.Sprintf("(<= %s %d)", v.T[2], replayByteLimit))
+			if strings.Contains(res.script, "H0_elem_uint8 ") {
+				for k := 0; k < replayByteLimit; k++ {
+					terms = append(terms, modelVar{fmt.Sprintf("%s[%d]", p.Name(), k), fmt.Sprintf("(select (select H0_elem_uint8 %s) (+ %s %d))", v.T[0], v.T[1], k)})
+				}
+			}
+		}
+	}
+	if len(terms) == 0 {
+		return nil
+	}
+	for attempt := 0; attempt < 2; attempt++ {
+		var s bytes.Buffer
+		fmt.Fprintf(&s, "(set-option :timeout %d)\n", 8000)
+		s.WriteString(res.script)
+		for _, x := range extra {
+			s.WriteString("(assert " + x + ")\n")
+		}
+		if attempt == 0 {
+			for _, fi := range res.FirstIter {
+				s.WriteString("(assert " + fi + ")\n")
+			}
+		}
+		fmt.Fprintf(&s, "(assert %s)\n(check-sat)\n(get-value (", o.Witness)
+		for _, t := range terms {
+			s.WriteString(t.Term + " ")
+		}
+		s.WriteString("))\n")
+		cmd := exec.Command("z3-new", "-in")
+		cmd.Stdin = &s
+		out, _ := cmd.CombinedOutput()
+		str := string(out)
+		if strings.HasPrefix(strings.TrimSpace(str), "sat") {
+			return parseModel(str[strings.Index(str, "sat")+3:], terms)
+		}
+	}
+	return nil
 }
